@@ -27,6 +27,7 @@ type Variant struct {
 	AlsoDry   bool
 	Svn       uint32
 	Genoa     bool // SEV-SNP product line (false: Milan)
+	AutoID    bool // no image id is given: the tool picks one
 }
 
 var img2M = fx.Image(2*1024*1024, 5)
@@ -64,7 +65,8 @@ func Variants(quick bool) []Variant {
 								for _, genoa := range prods {
 									v := v
 									v.Genoa = genoa && t.snp
-									v.Name = fmt.Sprintf("snp=%v tdx=%v vmsas=%d shapes=%v snapshot=%v overwrite=%v candidate=%q meas+dry=%v genoa=%v", t.snp, t.tdx, vm, sh, snap, ow, cand, also, v.Genoa)
+									v.AutoID = t.snp && len(vs)%3 != 1 // two thirds of the SNP variants leave the image id to the tool
+									v.Name = fmt.Sprintf("snp=%v tdx=%v vmsas=%d shapes=%v snapshot=%v overwrite=%v candidate=%q meas+dry=%v genoa=%v autoid=%v", t.snp, t.tdx, vm, sh, snap, ow, cand, also, v.Genoa, v.AutoID)
 									vs = append(vs, v)
 								}
 							}
@@ -92,6 +94,9 @@ func (v Variant) run(cfg Cfg, d Decider) *Obs {
 			product = sevsnp.SevProduct_SEV_PRODUCT_GENOA
 		}
 		ectx.SevSnp = &sev.SnpEndorsementRequest{Product: product, LaunchVmsas: v.Vmsas, ImageID: "11111111-2222-3333-4444-555555555555", Svn: v.Svn}
+		if v.AutoID {
+			ectx.SevSnp.ImageID = ""
+		}
 	}
 	if v.Tdx {
 		ectx.Tdx = &tdx.EndorsementRequest{MachineShapes: v.Shapes, IncludeEarlyAccept: v.EarlyAcc, Svn: v.Svn}
@@ -100,8 +105,9 @@ func (v Variant) run(cfg Cfg, d Decider) *Obs {
 		ectx.SnapshotDir = "snap"
 		ectx.ImageName = "fw.fd"
 	}
+	wiring := wire(ectx, w)
 	ctx := endorse.NewContext(fx.Ctx(kc, cfg.Overwrite, false), ectx)
-	o := &Obs{Cfg: cfg, Head0: map[string][]byte{}, MineDigest: digestOf(img2M)}
+	o := &Obs{Cfg: cfg, Wiring: wiring, Head0: map[string][]byte{}, MineDigest: digestOf(img2M)}
 	name := "endorsement"
 	if v.Candidate != "" {
 		name = v.Candidate
